@@ -34,13 +34,13 @@ type shardArg struct {
 }
 
 type failRec struct {
-	Cell     string `json:"cell"`
-	Clause   string `json:"clause"`
-	N        int64  `json:"n"`
-	Size     int    `json:"size"`
-	Case     *Case  `json:"case"`
-	Detail   string `json:"detail"`
-	PanicKey string `json:"panic_key,omitempty"`
+	Cell     string   `json:"cell"`
+	Clause   string   `json:"clause"`
+	N        int64    `json:"n"`
+	Size     int      `json:"size"`
+	Case     *Case    `json:"case"`
+	Detail   string   `json:"detail"`
+	PanicKey string   `json:"panic_key,omitempty"`
 	Fine     []string `json:"fine,omitempty"` // fine argument shapes of the failing cases
 }
 
